@@ -1,24 +1,49 @@
 """C05 - attributes are total maps with defaults; sparse and dense storage agree (history-driven)."""
+import collections
 import numpy as np
 from hypothesis import strategies as st
 from vlib.runner import SubCheck
 
 PROPERTY = "C05"
 RULE = ("Generated operation histories over one DataContainer (or CornerDataContainer): create an attribute simultaneously in "
-        "sparse and dense form (5 value types, arity 1-4, implicit or custom default), set (python / numpy scalars of every "
+        "sparse and dense form (5 value types, arity 1-4 and sometimes 6 / 9, implicit or custom default), set (python / numpy scalars of every "
         "type, vectors of right / wrong length, homogeneous or mixed component types), get, out-of-range get/set on dense, "
-        "in-place update of a value obtained by reading, append / += list / += tuple / += container (with or without its own "
+        "in-place update of a value obtained by reading, append / += list / += tuple / += set / += container (with or without its own "
         "attributes), attribute clear, as_array, delete_attribute, container clear; falsy values against non-falsy defaults, every "
         "element written in a drawn order then exported, in-place component updates after a write in a narrower class, numpy arrays "
         "of unusual shape / dtype as values (for these only sparse/dense agreement is demanded). After every step every attribute is read "
-        "at every index in both storages and compared with a dict-with-default model. non-trivial = the history grows the "
-        "container after an attribute was created and reads a never-written entry; distinct = distinct histories.")
+        "at every index in both storages and compared with a dict-with-default model. "
+        "CALLER SPELLINGS (round 6): create_attribute is called all-positionally in the documented order / all by keyword / in the in-repo style "
+        "(name, type, size positional; dense=, default_value= by keyword) / with only the non-default arguments; the dense flag is a bool, a "
+        "numpy.bool_ or 0 / 1; `size` is left out, None, len(container) or a numpy integer; the value type is the python type or one of its numpy "
+        "spellings listed in Attribute.Type; element ids are python ints, numpy int64 / int32 / intp on reads, writes and out-of-bounds probes; "
+        "as_array gets the size positionally (both storages, as in-repo callers do), by keyword or as a numpy integer; append by position or keyword; every "
+        "other read-out and every other write goes through get_attribute(name) instead of the handle create_attribute returned; has_attribute is asked for "
+        "every live name and for a name never created. COLLECTION FORMS: vector values come as list / tuple / deque / generator / iterator / dict values view "
+        "(a fresh one per storage; lists and deques are emptied by the caller after the write), numpy arrays also as mouette Vec; `container +=` gets list / "
+        "tuple / set (documented) and generator / deque / dict-keys view (there: either refused with nothing changed or appended, never half-done); the "
+        "caller's list is changed after `+=` and after the constructor; the first elements come through append or through the constructor (positional / keyword / "
+        "tuple, attributes=None spelled out). FALSY / MINIMAL: empty collections of every form, exports before anything is stored and of an empty container, custom "
+        "defaults equal to the zero of the type. SAME OBJECT TWICE: as_array asked twice in a row (each answer compared at once), export - write - export, clear twice, "
+        "delete_attribute of an absent name, the other container of `+=` owning an attribute named like one of ours and being appended to / written afterwards. "
+        "SIZE (sub-check large_container): containers of 2**16+1 .. 2**17+38 elements grown in one or two `+=` (list / tuple / container) or built by the constructor, "
+        "attributes created before the growth, writes at the last index and around 2**16 / 10**5, full export of both storages compared with the model, one more append, clear. "
+        "non-trivial = the history grows the container after an attribute was created and reads a never-written entry; distinct = distinct histories.")
 ASSUMPTIONS = ["strings are <= 32 characters (documented limit of the dense storage)", "|ints| <= 2**53 (exactly representable when widened to float), floats without NaN",
-               "attribute names are fresh (re-creating an existing name is documented as an override and is not exercised)"]
+               "attribute names are fresh (re-creating an existing name is documented as an override and is not exercised)",
+               "`container += container` is only exercised with ANOTHER container (the statement says 'another container'; `c += c` is outside the domain)",
+               "nothing is assumed about an exported array the caller keeps across later operations (the dense export is documented nowhere as a copy or a view)",
+               "a `size` argument, when given, is the container's current size (as its docstring says)",
+               "iterables other than list / tuple / set on the right of `container +=` may be refused; element order of a set operand is not observed (only the alignment of the attributes)"]
 
 TYPES = ["bool", "int", "float", "complex", "str"]
 PYTYPE = {"bool": bool, "int": int, "float": float, "complex": complex, "str": str}
 RANK = {"bool": 0, "int": 1, "float": 2}
+# numpy spellings of the five value types (listed in Attribute.SUPPORTED_TYPES / Attribute.Type) usable as `data_type`
+NP_DTYPES = {"bool": ["bool_"], "int": ["int32", "int64", "uint8"], "float": ["float32", "float64"], "complex": ["complex128"], "str": ["str_"]}
+# forms in which a vector value can be handed over (the storages do `list(value)`: any iterable, iterated once)
+SEQ_FORMS = ("list", "tuple", "deque", "gen", "iter", "dictvalues")
+ONE_SHOT = ("gen", "iter")
 
 
 # in-place component writes are asserted on every written numeric vector entry (finding F-C05-8 fixed); C05_INPLACE_PLAIN_ONLY=1 restores
@@ -105,7 +130,7 @@ def value_desc(draw, typ, arity):
                 return ["list", [draw(typed_scalar(typ))]]
             return ["scalar", draw(typed_scalar(typ))]
         return ["scalar", draw(scalar_desc())]
-    form = draw(st.sampled_from(["list", "tuple"]))
+    form = draw(st.sampled_from(["list", "list", "list", "tuple", "tuple", "tuple", "deque", "gen", "gen", "iter", "dictvalues"]))
     if mode == "good":
         if typ in ("int", "float") and draw(st.integers(0, 3)) == 0:
             # a vector equal to the implicit default, given in the attribute's own class
@@ -127,11 +152,25 @@ def value_desc(draw, typ, arity):
 
 
 def realise_value(vd):
+    """a FRESH object per call (generators / iterators are one-shot: never hand the same one to two storages)"""
     form, p = vd
     if form == "scalar":
         return realise(p)
     vals = [realise(x) for x in p]
-    return vals if form == "list" else tuple(vals)
+    if form == "list": return vals
+    if form == "tuple": return tuple(vals)
+    if form == "deque": return collections.deque(vals)
+    if form == "gen": return (x for x in vals)
+    if form == "iter": return iter(vals)
+    if form == "dictvalues": return dict(enumerate(vals)).values()
+    raise ValueError(form)
+
+
+def show_value(vd):
+    form, p = vd
+    if form == "scalar":
+        return repr(realise(p))
+    return f"{form}({[realise(x) for x in p]!r})"
 
 
 def model_accepts(vd, typ, arity):
@@ -162,6 +201,8 @@ def model_value(vd, typ, arity):
 def history(draw):
     container = draw(st.sampled_from(["data", "data", "corner"]))
     n0 = draw(st.integers(0, 6))
+    # how the first n0 elements get in: one append each, or through the constructor (positional / keyword / tuple; the caller's list is changed afterwards)
+    init = draw(st.sampled_from(["append", "append", "ctor_pos", "ctor_kw", "ctor_tuple"]))
     ops = []
     attrs = []     # (name, typ, arity)
     nattr = 0
@@ -169,32 +210,46 @@ def history(draw):
     nsteps = draw(st.integers(1, 40))
     ncreate0 = draw(st.sampled_from([0, 1, 1, 2, 3]))       # most histories start by declaring attributes (else half of them never own one)
     for step_no in range(nsteps + ncreate0):
-        choices = ["create", "append", "iadd_list", "iadd_cont"]
+        choices = ["create", "append", "iadd_list", "iadd_list", "iadd_cont"]
         if step_no < ncreate0:
             choices = ["create"]
         if attrs:
             choices += ["set", "set", "set", "get", "set_oob", "get_oob", "inplace", "inplace_idx", "inplace_idx", "clear_attr", "as_array",
                         "delete", "set", "append", "copy_entry", "copy_entry", "set_array", "as_array", "set_twice", "set_twice",
-                        "fill_all", "set_exotic", "set_exotic"]
+                        "fill_all", "set_exotic", "set_exotic", "export_write_export"]
         if draw(st.integers(0, 30)) == 0:
             choices = ["clear_container"]
         op = draw(st.sampled_from(choices))
         if op == "create":
             typ = draw(st.sampled_from(TYPES))
-            arity = draw(st.sampled_from([1, 1, 2, 3, 4]))
+            arity = draw(st.sampled_from([1, 1, 1, 1, 2, 2, 3, 3, 4, 4, 6, 9]))
             dflt = None
             if draw(st.integers(0, 1)) == 0:
                 # custom defaults as python scalars or numpy scalars of the attribute's own class
                 dflt = draw(scalar_desc().filter(lambda d: type_class(d) == typ and d[0] != "npcomplex"))
             name = f"a{nattr}"; nattr += 1
             attrs.append((name, typ, arity))
-            ops.append(["create", name, typ, arity, dflt])
+            # how the caller spells the call: all positional in the documented order / all by keyword / the in-repo style (name, type, size
+            # positional, `dense=`, `default_value=` by keyword) / only the arguments that differ from their documented defaults;
+            # the `dense` flag as bool / numpy.bool_ / 0-1; `size` left out, None or the container's size; the type as python or numpy type
+            spell = {"call": draw(st.sampled_from(["pos", "kw", "repo", "minimal"])),
+                     "flag": draw(st.sampled_from(["bool", "bool", "npbool", "npbool", "int"])),
+                     "size": draw(st.sampled_from(["omit", "omit", "none", "len", "nplen"])),
+                     "dtype": draw(st.sampled_from(["py", "py", "py"] + NP_DTYPES[typ]))}
+            ops.append(["create", name, typ, arity, dflt, spell])
+            if draw(st.integers(0, 2)) == 0:
+                ops.append(["as_array", name])        # exported before anything is stored (possibly on an empty container)
         elif op == "append":
             ops.append(["append"]); n += 1
         elif op == "iadd_list":
-            k = draw(st.integers(0, 4)); ops.append(["iadd_list", k, draw(st.sampled_from(["list", "tuple"]))]); n += k
+            # list / tuple / set are the documented collection forms; for any other iterable (generator, deque, dict view) the library may
+            # refuse, but must then leave the container and its attributes as they were (the model follows what the container did)
+            form = draw(st.sampled_from(["list", "list", "tuple", "tuple", "set", "set", "gen", "deque", "dictkeys"]))
+            k = draw(st.integers(0, 4)); ops.append(["iadd_list", k, form])
+            if form in ("list", "tuple", "set"): n += k
         elif op == "iadd_cont":
-            k = draw(st.integers(0, 4)); ops.append(["iadd_cont", k, draw(st.booleans())]); n += k
+            # the other container may own attributes (one of them possibly named like one of ours) and is changed by its owner afterwards
+            k = draw(st.integers(0, 4)); ops.append(["iadd_cont", k, draw(st.booleans()), draw(st.integers(0, 2)) > 0, draw(st.booleans())]); n += k
         elif op == "clear_container":
             ops.append(["clear_container"]); n = 0; attrs = []
         else:
@@ -246,7 +301,7 @@ def history(draw):
             elif op == "set_array":
                 # the value is a numpy array which the caller changes after the write
                 ops.append(["set_array", name, draw(st.integers(0, max(n - 1, 0))), draw(st.integers(0, 3)),
-                            draw(value_desc(typ, arity).filter(lambda vd: model_accepts(vd, typ, arity) and vd[0] != "scalar"
+                            draw(value_desc(typ, arity).filter(lambda vd: model_accepts(vd, typ, arity) and vd[0] in ("list", "tuple")
                                                                and len(set(type_class(c) for c in vd[1])) == 1)) if arity > 1 else None])
             elif op == "fill_all":
                 # every element written, in a drawn order (highest id first, index 0 last, ...), then exported
@@ -261,6 +316,12 @@ def history(draw):
                 shape = draw(st.sampled_from(["(k,)", "(k,)", "(1,)", "(1,1)", "()", "(k,1)", "(1,k)", "(k+1,)", "(k-1,)"]))
                 dt = draw(st.sampled_from(["own", "own", "own", "int8", "int32", "int64", "uint8", "float32", "float64", "bool", "complex128", "complex64", "U3", "U40", "object"]))
                 ops.append(["set_exotic", name, draw(st.integers(0, max(n - 1, 0))), shape, dt, draw(st.integers(-3, 3)), draw(st.booleans())])
+            elif op == "export_write_export":
+                # export, one accepted write, export again (the second export must show the write; an export is never a snapshot that is re-served)
+                ops.append(["as_array", name])
+                if n > 0:
+                    ops.append(["set", name, draw(st.sampled_from([0, n - 1, draw(st.integers(0, n - 1))])), draw(value_desc(typ, arity).filter(lambda vd: model_accepts(vd, typ, arity)))])
+                ops.append(["as_array", name])
             elif op == "clear_attr":
                 ops.append(["clear_attr", name])
                 if n > 0 and draw(st.booleans()):
@@ -270,7 +331,7 @@ def history(draw):
                 ops.append(["as_array", name])
             elif op == "delete":
                 ops.append(["delete", name]); attrs = [a for a in attrs if a[0] != name]
-    return {"container": container, "n0": n0, "ops": ops}
+    return {"container": container, "n0": n0, "init": init, "ops": ops}
 
 
 # ------------------------------------------------------------------ interpretation
@@ -294,6 +355,9 @@ def lib_eq(val, mv, typ, arity):
         return False
 
 
+KEYFORMS = [int, np.int64, np.int32, np.intp]
+
+
 class AttrModel:
     def __init__(self, typ, arity, dflt):
         self.typ, self.arity = typ, arity
@@ -310,40 +374,73 @@ def fn(case, ctx):
     from mouette.mesh.mesh_attributes import Attribute
     corner = case["container"] == "corner"
     ctx.label("container=" + case["container"])
-    cont = CornerDataContainer(id="c") if corner else DataContainer(id="c")
     counter = [0]
 
     def new_elem():
         counter[0] += 1
         return (counter[0], counter[0] + 1) if corner else (counter[0], counter[0] + 1, counter[0] + 2)
 
-    def append_one():
+    def append_one(kw=False):
         e = new_elem()
         if corner:
-            cont.append(e[0], e[1])
+            cont.append(val_elem=e[0], val_adj=e[1]) if kw else cont.append(e[0], e[1])
         else:
-            cont.append(e)
+            cont.append(val=e) if kw else cont.append(e)
 
     n = 0
-    for _ in range(case["n0"]):
-        append_one(); n += 1
+    init = case.get("init", "append")
+    ctx.label("init=" + init)
+    if init == "append":
+        cont = CornerDataContainer(id="c") if corner else DataContainer(id="c")
+        for _ in range(case["n0"]):
+            append_one(); n += 1
+    else:
+        elems = [new_elem() for _ in range(case["n0"])]
+        if corner:
+            le, la = [e[0] for e in elems], [e[1] for e in elems]
+            if init == "ctor_tuple": le, la = tuple(le), tuple(la)
+            ok, cont = ctx.call("container:construct", (lambda: CornerDataContainer(elem=le, adj=la, attributes=None, id="c")) if init == "ctor_kw"
+                                else (lambda: CornerDataContainer(le, la, id="c")))
+            caller_lists = [le, la]
+        else:
+            data = tuple(elems) if init == "ctor_tuple" else elems
+            ok, cont = ctx.call("container:construct", (lambda: DataContainer(data=data, attributes=None, id="c")) if init == "ctor_kw"
+                                else (lambda: DataContainer(data, id="c")))
+            caller_lists = [data]
+        if not ok: return
+        n = case["n0"]
+        for l in caller_lists:       # the caller goes on using its own list: the container has its elements, not the list
+            if isinstance(l, list): l.append(0)
     models = {}      # name -> AttrModel
     handles = {}     # name -> (sparse, dense)
     grown_after_create = False
     read_unwritten = False
 
+    obs_no = [0]
+
     def observe(where):
         nonlocal read_unwritten
+        obs_no[0] += 1
+        for name in models:
+            for suffix in ("_s", "_d"):
+                ctx.check(bool(cont.has_attribute(name + suffix)), "container:has_attribute", f"{where}: has_attribute('{name + suffix}') is false for an existing attribute")
+        ctx.check(not cont.has_attribute("never_created"), "container:has_attribute", f"{where}: has_attribute is true for a name that was never created")
         ctx.check(len(cont) == n, "container:len", f"{where}: len(container) = {len(cont)}, expected {n}")
         for name, mdl in models.items():
             sp, de = handles[name]
+            if obs_no[0] % 2:
+                # every other read-out goes through the attribute looked up by name instead of the handle create_attribute returned
+                ok1, sp = ctx.call("container:get_attribute", cont.get_attribute, name + "_s")
+                ok2, de = ctx.call("container:get_attribute", cont.get_attribute, name=name + "_d")
+                if not (ok1 and ok2): continue
             ctx.check(len(de) == n, "dense:len", f"{where}: dense attribute '{name}' has length {len(de)} but the container has {n} elements")
             for i in range(n):
                 mv = mdl.get(i)
                 if i not in mdl.data:
                     read_unwritten = True
-                ok1, v1 = ctx.call("sparse:get", sp.__getitem__, i)
-                ok2, v2 = ctx.call("dense:get", de.__getitem__, i)
+                ki = KEYFORMS[(obs_no[0] + i) % 4](i)          # element ids come as python ints or numpy ints
+                ok1, v1 = ctx.call("sparse:get", sp.__getitem__, ki)
+                ok2, v2 = ctx.call("dense:get", de.__getitem__, ki)
                 if ok1:
                     ctx.check(lib_eq(v1, mv, mdl.typ, mdl.arity), "sparse:value",
                               f"{where}: sparse '{name}'[{i}] = {v1!r}, expected {mv!r} ({'written' if i in mdl.data else 'never written -> default'}; type {mdl.typ} x{mdl.arity})")
@@ -358,40 +455,83 @@ def fn(case, ctx):
         kind = op[0]
         where = f"step {step} {op}"
         if kind == "create":
-            _, name, typ, arity, dflt = op
+            _, name, typ, arity, dflt = op[:5]
+            spell = op[5] if len(op) > 5 else {"call": "pos", "flag": "bool", "size": "omit", "dtype": "py"}
             dv = None if dflt is None else realise(dflt)
-            ok1, sp = ctx.call("create:sparse", cont.create_attribute, name + "_s", PYTYPE[typ], arity, False, dv)
-            ok2, de = ctx.call("create:dense", cont.create_attribute, name + "_d", PYTYPE[typ], arity, True, dv)
+            T = PYTYPE[typ] if spell["dtype"] == "py" else getattr(np, spell["dtype"])
+            res = []
+            for suffix, dense in (("_s", False), ("_d", True)):
+                flag = {"bool": dense, "npbool": np.bool_(dense), "int": int(dense)}[spell["flag"]]
+                size = {"omit": None, "none": None, "len": n, "nplen": np.int64(n)}[spell["size"]]
+                pos, kw = [], {}
+                if spell["call"] == "pos":
+                    pos = [name + suffix, T, arity, flag, dv] + ([size] if spell["size"] != "omit" else [])
+                elif spell["call"] == "kw":
+                    kw = {"name": name + suffix, "data_type": T, "elem_size": arity, "dense": flag, "default_value": dv}
+                elif spell["call"] == "repo":
+                    pos = [name + suffix, T, arity]; kw = {"dense": flag, "default_value": dv}
+                else:
+                    pos = [name + suffix, T]
+                    if arity != 1: kw["elem_size"] = arity
+                    if dense: kw["dense"] = flag
+                    if dv is not None: kw["default_value"] = dv
+                if spell["call"] != "pos" and spell["size"] != "omit":
+                    kw["size"] = size
+                res.append(ctx.call("create:dense" if dense else "create:sparse", cont.create_attribute, *pos, **kw))
+            (ok1, sp), (ok2, de) = res
             if not (ok1 and ok2):
                 return
+            ctx.label("create:call=" + spell["call"], "create:dense-flag=" + spell["flag"], "create:size=" + spell["size"],
+                      "create:type=" + ("python" if spell["dtype"] == "py" else "numpy"))
             models[name] = AttrModel(typ, arity, dflt)
             handles[name] = (sp, de)
-            ctx.label(f"type={typ}", f"arity={min(arity, 2)}{'+' if arity > 2 else ''}", "default=custom" if dflt is not None else "default=implicit")
+            ctx.label(f"type={typ}", f"arity={min(arity, 2)}{'+' if arity > 2 else ''}{'+' if arity > 4 else ''}", "default=custom" if dflt is not None else "default=implicit")
+            if dflt is not None and not canon(dflt, typ): ctx.label("default=custom-falsy")
             if dflt is not None and arity > 1:
                 ctx.label("custom-default-vector")
         elif kind == "append":
-            ctx.call("container:append", append_one); n += 1
+            ctx.call("container:append", append_one, step % 2 == 1); n += 1
             grown_after_create = grown_after_create or bool(models)
         elif kind == "iadd_list":
             k, form = op[1], op[2]
-            items = [new_elem() for _ in range(k)]
-            items = items if form == "list" else tuple(items)
+            elems = [new_elem() for _ in range(k)]
+            items = {"list": list, "tuple": tuple, "set": set, "deque": collections.deque, "gen": lambda l: (x for x in l), "dictkeys": lambda l: dict.fromkeys(l).keys()}[form](elems)
+            ctx.label("iadd-form=" + form, "iadd-empty" if k == 0 else "iadd-nonempty")
 
             def f():
                 nonlocal cont
                 cont += items
-            ok, _ = ctx.call("container:iadd_list", f); n += k
-            if not ok: return
+            if form in ("list", "tuple", "set"):
+                ok, _ = ctx.call("container:iadd_list", f); n += k
+                if not ok: return
+                if form == "list": items.append(0)       # the caller's list changes afterwards
+            else:
+                # not a documented collection form: either refused with nothing changed, or appended like a list
+                try:
+                    f()
+                except Exception as e:
+                    if type(e).__name__ in ("Violation", "HarnessError"): raise
+                m = len(cont)
+                if not ctx.check(m in (n, n + k), "container:iadd_iterable", f"{where}: `container += {form} of {k} elements` left the container with {m} elements (it had {n})"):
+                    return
+                n = m
             grown_after_create = grown_after_create or (bool(models) and k > 0)
         elif kind == "iadd_cont":
             k, with_attr = op[1], op[2]
+            same_name, mutate_after = (op[3], op[4]) if len(op) > 4 else (False, False)
             other = CornerDataContainer(id="o") if corner else DataContainer(id="o")
             for _ in range(k):
                 e = new_elem()
                 if corner: other.append(e[0], e[1])
                 else: other.append(e)
+            oa = None
             if with_attr:
-                oa = other.create_attribute("foreign", float, 1, dense=True)
+                oname = "foreign"
+                if same_name and models:
+                    oname = sorted(models)[0] + "_d"          # the other container's attribute is named like one of ours
+                    ctx.label("iadd-container-with-attribute-of-same-name")
+                ok, oa = ctx.call("create:dense", other.create_attribute, oname, float, 1, dense=True)
+                if not ok: return
                 for i in range(k):
                     oa[i] = 1.0
                 ctx.label("iadd-container-with-attributes")
@@ -401,6 +541,13 @@ def fn(case, ctx):
                 cont += other
             ok, _ = ctx.call("container:iadd_container", f); n += k
             if not ok: return
+            if mutate_after:
+                # the other container lives on: its owner appends to it and writes its attributes
+                ctx.label("iadd-container-changed-afterwards")
+                e = new_elem()
+                if corner: other.append(e[0], e[1])
+                else: other.append(e)
+                if oa is not None: oa[k] = 2.0
             grown_after_create = grown_after_create or (bool(models) and k > 0)
         elif kind == "clear_container":
             ctx.call("container:clear", cont.clear)
@@ -414,21 +561,31 @@ def fn(case, ctx):
             res = []
             key_i = np.int64(i) if (step + i) % 3 == 0 else i        # element ids often come out of numpy arrays
             if key_i is not i: ctx.label("numpy-index")
+            if step % 2:
+                # the write goes through the attribute looked up by name, the read-out through the handle create_attribute returned (or the reverse)
+                ok1, sp = ctx.call("container:get_attribute", cont.get_attribute, name + "_s")
+                ok2, de = ctx.call("container:get_attribute", cont.get_attribute, name + "_d")
+                if not (ok1 and ok2): return
+            ctx.label("value-form=" + vd[0])
             for which, a in (("sparse", sp), ("dense", de)):
+                v = realise_value(vd)
                 try:
-                    a[key_i] = realise_value(vd)
+                    a[key_i] = v
                     res.append(True)
                 except Exception as e:
                     res.append(False)
                     err = e
+                if isinstance(v, (list, collections.deque)):
+                    v.clear()          # the caller's own sequence changes after the write
+            sp, de = handles[name]
             comps = vd[1] if vd[0] != "scalar" else [vd[1]]
             if mdl.arity > 1 and vd[0] != "scalar" and len(set(type_class(c) for c in comps)) > 1:
                 ctx.label("mixed-component-types")
             ctx.label("write-accepted" if acc else "write-rejected")
             good = ctx.check(res[0] == res[1], "set:sparse-dense-disagree",
-                             f"{where}: sparse {'accepted' if res[0] else 'rejected'} but dense {'accepted' if res[1] else 'rejected'} value {realise_value(vd)!r} for type {mdl.typ} x{mdl.arity}")
+                             f"{where}: sparse {'accepted' if res[0] else 'rejected'} but dense {'accepted' if res[1] else 'rejected'} value {show_value(vd)} for type {mdl.typ} x{mdl.arity}")
             good = ctx.check(res[0] == acc and res[1] == acc, "set:acceptance",
-                             f"{where}: value {realise_value(vd)!r} (component classes {[type_class(c) for c in comps]}) into {mdl.typ} x{mdl.arity}: "
+                             f"{where}: value {show_value(vd)} (component classes {[type_class(c) for c in comps]}) into {mdl.typ} x{mdl.arity}: "
                              f"sparse {'accepted' if res[0] else 'rejected'}, dense {'accepted' if res[1] else 'rejected'}, documented rule says {'accept' if acc else 'reject'}") and good
             if acc and res[0] and res[1]:
                 mdl.data[i] = model_value(vd, mdl.typ, mdl.arity)
@@ -456,6 +613,8 @@ def fn(case, ctx):
                 idx = n
             sp, de = handles[name]
             ctx.label("oob=size" if idx == n else "oob=other")
+            if step % 2:
+                idx = np.int64(idx); ctx.label("oob-numpy-index")
             try:
                 if kind == "get_oob":
                     de[idx]
@@ -506,8 +665,7 @@ def fn(case, ctx):
                         ctx.check(lib_eq(got, exp, mdl.typ, mdl.arity), which + ":inplace-write-lost",
                                   f"{where}: after `x = attr[{i}]; x[{k % mdl.arity}] = {d}` on a written entry the {which} storage reads {got!r}, expected {exp!r}")
             # every OTHER entry must read as before (checked by the read-out); entry i itself is re-synchronised
-            val = realise_value(vd)
-            sp[i] = val; de[i] = val
+            sp[i] = realise_value(vd); de[i] = realise_value(vd)
             mdl.data[i] = model_value(vd, mdl.typ, mdl.arity)
         elif kind == "copy_entry":
             _, name, i, j, k, d, vd = op
@@ -529,8 +687,7 @@ def fn(case, ctx):
                     except Exception:
                         pass
                 # every entry other than j must read as before (entry i in particular); j is re-synchronised
-                val = realise_value(vd)
-                sp[j] = val; de[j] = val
+                sp[j] = realise_value(vd); de[j] = realise_value(vd)
                 mdl.data[j] = model_value(vd, mdl.typ, mdl.arity)
         elif kind == "set_array":
             _, name, i, k, vd = op
@@ -540,7 +697,10 @@ def fn(case, ctx):
             i = i % n
             ctx.label("numpy-array-value")
             for a in (sp, de):
-                arr = np.array(realise_value(vd))
+                arr = np.array([realise(x) for x in vd[1]])
+                if step % 2:
+                    from mouette.geometry import Vec
+                    arr = Vec(arr); ctx.label("Vec-value")
                 ok, _ = ctx.call("set:numpy-array", a.__setitem__, i, arr)
                 if not ok: return
                 if arr.dtype.kind in "ifc":
@@ -602,33 +762,184 @@ def fn(case, ctx):
             if name not in models: continue
             sp, de = handles[name]
             ctx.call("sparse:clear", sp.clear); ctx.call("dense:clear", de.clear)
+            if step % 2:
+                ctx.label("clear-repeated")
+                ctx.call("sparse:clear", sp.clear); ctx.call("dense:clear", de.clear)
             models[name].data = {}
         elif kind == "as_array":
             name = op[1]
             if name not in models: continue
             mdl = models[name]; sp, de = handles[name]
-            ok1, a1 = ctx.call("sparse:as_array", sp.as_array, n)
-            ok2, a2 = ctx.call("dense:as_array", de.as_array)
             rows = [mdl.get(i) if mdl.arity > 1 else [mdl.get(i)] for i in range(n)]
             dt = {"bool": bool, "int": np.int64, "float": float, "complex": complex, "str": "<U32"}[mdl.typ]
             exp = np.array(rows, dtype=dt).reshape(n, mdl.arity)
             if mdl.arity == 1:
                 exp = exp[:, 0]      # one value per element: shape (n,); vectors: shape (n, arity)
-            for ok, arr, which in ((ok1, a1, "sparse"), (ok2, a2, "dense")):
-                if ok:
-                    arr = np.asarray(arr)
-                    ctx.check(arr.shape == exp.shape and bool(np.all(arr == exp)), which + ":as_array",
-                              f"{where}: {which} as_array = {arr!r}, expected {exp!r}")
+            if not mdl.data: ctx.label("export-with-no-stored-entry")
+            if n == 0: ctx.label("export-of-empty-container")
+            # the size is given as in-repo callers do (positionally, to either storage), by keyword, or as a numpy integer; every other
+            # export is asked for twice in a row (each answer is compared at once - nothing is assumed about an export kept by the caller)
+            variant = step % 3
+            ctx.label("as_array-spelling=" + ("positional", "keyword", "numpy-size")[variant])
+            for round_no in range(2 if step % 2 else 1):
+                if round_no: ctx.label("as_array-repeated")
+                if variant == 0:
+                    ok1, a1 = ctx.call("sparse:as_array", sp.as_array, n); ok2, a2 = ctx.call("dense:as_array", de.as_array)
+                elif variant == 1:
+                    ok1, a1 = ctx.call("sparse:as_array", sp.as_array, container_size=n); ok2, a2 = ctx.call("dense:as_array", de.as_array, n)
+                else:
+                    ok1, a1 = ctx.call("sparse:as_array", sp.as_array, np.int64(n)); ok2, a2 = ctx.call("dense:as_array", de.as_array)
+                for ok, arr, which in ((ok1, a1, "sparse"), (ok2, a2, "dense")):
+                    if ok:
+                        arr = np.asarray(arr)
+                        ctx.check(arr.shape == exp.shape and bool(np.all(arr == exp)), which + ":as_array",
+                                  f"{where}: {which} as_array = {arr!r}, expected {exp!r}")
         elif kind == "delete":
             name = op[1]
             if name not in models: continue
             ctx.call("container:delete", cont.delete_attribute, name + "_s")
             ctx.call("container:delete", cont.delete_attribute, name + "_d")
             ctx.check(not cont.has_attribute(name + "_s") and not cont.has_attribute(name + "_d"), "container:delete", f"{where}: attribute still present")
+            if step % 2:
+                # deleting a name that does not exist (any more) is documented as a no-op
+                ctx.label("delete-absent")
+                ctx.call("container:delete-absent", cont.delete_attribute, name + "_s")
+                ctx.call("container:delete-absent", cont.delete_attribute, name=name + "_d")
             del models[name]; del handles[name]
         observe(where)
     ctx.nontrivial(grown_after_create and read_unwritten)
 
 
-SUBCHECKS = [SubCheck("attribute_history", history(), fn, quick=2000, thorough=5000)]
+# ------------------------------------------------------------------ containers beyond 2**16 / 10**5 elements
+
+@st.composite
+def large_case(draw):
+    typ = draw(st.sampled_from(TYPES))
+    arity = draw(st.sampled_from([1, 1, 2, 3]))
+    dflt = None
+    if draw(st.booleans()):
+        dflt = draw(scalar_desc().filter(lambda d: type_class(d) == typ and d[0] != "npcomplex"))
+    n = draw(st.sampled_from([2 ** 16 + 1, 2 ** 16 + 2, 70001, 10 ** 5 + 1, 2 ** 17 + 1])) + draw(st.sampled_from([0, 0, 1, 37]))
+    good = value_desc(typ, arity).filter(lambda vd: model_accepts(vd, typ, arity) and vd[0] in ("scalar", "list", "tuple"))
+    # where the writes go: relative to the final size (last, last-1), around 2**16 and 10**5, index 0, anywhere
+    places = st.sampled_from(["last", "last", "last-1", "0", "65535", "65536", "65537", "99999", "100000", "frac"])
+    writes = [[draw(places), draw(st.integers(0, 10 ** 6)), draw(good)] for _ in range(draw(st.integers(3, 10)))]
+    return {"container": draw(st.sampled_from(["data", "corner"])), "typ": typ, "arity": arity, "dflt": dflt, "n0": draw(st.integers(0, 3)), "n": n,
+            "how": draw(st.sampled_from(["iadd_list", "iadd_tuple", "iadd_cont", "two_chunks", "ctor"])), "early": draw(good), "writes": writes}
+
+
+def fn_large(case, ctx):
+    from mouette.mesh.data_container import DataContainer, CornerDataContainer
+    from mouette.mesh.mesh_attributes import Attribute
+    corner = case["container"] == "corner"
+    typ, arity, n0, N, how = case["typ"], case["arity"], case["n0"], case["n"], case["how"]
+    ctx.label("container=" + case["container"], "large:how=" + how, "large:type=" + typ, "large:n>1e5" if N > 10 ** 5 else "large:n>2**16")
+    mk = (lambda a, b: [(i, i + 1) for i in range(a, b)]) if corner else (lambda a, b: [(i, i + 1, i + 2) for i in range(a, b)])
+    dv = None if case["dflt"] is None else realise(case["dflt"])
+    mdl = AttrModel(typ, arity, case["dflt"])
+
+    def create(c):
+        ok1, sp = ctx.call("create:sparse", c.create_attribute, "a_s", PYTYPE[typ], arity, default_value=dv)
+        ok2, de = ctx.call("create:dense", c.create_attribute, "a_d", PYTYPE[typ], arity, dense=True, default_value=dv)
+        return (sp, de) if ok1 and ok2 else None
+
+    def write(h, i, vd):
+        ok1, _ = ctx.call("sparse:set", h[0].__setitem__, i, realise_value(vd)); ok2, _ = ctx.call("dense:set", h[1].__setitem__, i, realise_value(vd))
+        mdl.data[i] = model_value(vd, typ, arity)
+        return ok1 and ok2
+
+    if how == "ctor":
+        # all elements are there when the attribute is created
+        els = mk(0, N)
+        ok, cont = ctx.call("container:construct", (lambda: CornerDataContainer([e[0] for e in els], [e[1] for e in els], id="c")) if corner else (lambda: DataContainer(els, id="c")))
+        if not ok: return
+        h = create(cont)
+        if h is None: return
+    else:
+        cont = CornerDataContainer(id="c") if corner else DataContainer(id="c")
+        for e in mk(0, n0):
+            cont.append(*e) if corner else cont.append(e)
+        h = create(cont)
+        if h is None: return
+        if n0 > 0 and not write(h, n0 - 1, case["early"]): return          # written before the growth
+        chunks = [(n0, 40000), (40000, N)] if how == "two_chunks" else [(n0, N)]
+        for a, b in chunks:
+            els = mk(a, b)
+            if how == "iadd_cont":
+                other = ctx.call("container:construct", (lambda: CornerDataContainer([e[0] for e in els], [e[1] for e in els], id="o")) if corner else (lambda: DataContainer(els, id="o")))[1]
+                if other is None: return
+                items = other
+            else:
+                items = tuple(els) if how == "iadd_tuple" else els
+
+            def f():
+                nonlocal cont
+                cont += items
+            ok, _ = ctx.call("container:iadd_large", f)
+            if not ok: return
+    sp, de = h
+    n = N
+    ctx.nontrivial(how != "ctor")
+
+    def audit(where):
+        """lengths, the export of both storages against the model (all n rows), entry reads at the written and at some never-written indices"""
+        ctx.check(len(cont) == n, "container:len", f"{where}: len(container) = {len(cont)}, expected {n}")
+        if not ctx.check(len(de) == n, "dense:len", f"{where}: dense attribute has length {len(de)} but the container has {n} elements"):
+            return False
+        dt = {"bool": bool, "int": np.int64, "float": float, "complex": complex, "str": "<U32"}[typ]
+        exp = np.empty((n, arity), dtype=dt)
+        exp[:] = np.array(mdl.default if arity > 1 else [mdl.default], dtype=dt)
+        for i, v in mdl.data.items():
+            exp[i] = np.array(v if arity > 1 else [v], dtype=dt)
+        if arity == 1: exp = exp[:, 0]
+        ok1, a1 = ctx.call("sparse:as_array", sp.as_array, n); ok2, a2 = ctx.call("dense:as_array", de.as_array)
+        for ok, arr, which in ((ok1, a1, "sparse"), (ok2, a2, "dense")):
+            if not ok: continue
+            arr = np.asarray(arr)
+            if not ctx.check(arr.shape == exp.shape, which + ":as_array", f"{where}: {which} as_array has shape {arr.shape}, expected {exp.shape}"):
+                continue
+            bad = np.argwhere(arr != exp)
+            ctx.check(len(bad) == 0, which + ":as_array",
+                      f"{where}: {which} as_array differs from the written values / default at {len(bad)} places, first at {bad[0].tolist() if len(bad) else None}: "
+                      f"{arr[tuple(bad[0])] if len(bad) else None!r}, expected {exp[tuple(bad[0])] if len(bad) else None!r}")
+        probe = sorted(set(list(mdl.data) + [0, 1, n0, 39999, 40000, 65535, 65536, 65537, 99999, 100000, n // 2, n - 2, n - 1]))
+        for i in probe:
+            if not 0 <= i < n: continue
+            mv = mdl.get(i)
+            ki = KEYFORMS[i % 4](i)
+            for a, which in ((sp, "sparse"), (de, "dense")):
+                ok, v = ctx.call(which + ":get", a.__getitem__, ki)
+                if ok:
+                    ctx.check(lib_eq(v, mv, typ, arity), which + ":value",
+                              f"{where}: {which}[{i}] = {v!r}, expected {mv!r} ({'written' if i in mdl.data else 'never written -> default'}; container size {n})")
+        for idx in (n, n + 1, np.int64(n)):
+            try:
+                de[idx]
+                ctx.fail("dense:oob", f"{where}: dense read at index {idx} (container size {n}) did not raise OutOfBoundsError")
+            except Attribute.OutOfBoundsError:
+                pass
+            except Exception as e:
+                if type(e).__name__ == "Violation": raise
+                ctx.fail("dense:oob", f"{where}: dense read at index {idx} (container size {n}) raised {type(e).__name__} instead of OutOfBoundsError: {e}")
+        return True
+
+    if not audit("after the growth to %d elements" % n): return
+    for place, r, vd in case["writes"]:
+        i = {"last": n - 1, "last-1": n - 2, "0": 0, "frac": r % n}.get(place)
+        if i is None: i = int(place)
+        if not 0 <= i < n: i = n - 1
+        ctx.label("large:write@" + place)
+        if not write(h, i, vd): return
+    if not audit("after the writes"): return
+    # one more element appended on its own, written, then both attributes reset
+    ctx.call("container:append", (lambda: cont.append(N, N + 1)) if corner else (lambda: cont.append((N, N + 1, N + 2)))); n += 1
+    if not audit("after one more append"): return
+    if not write(h, n - 1, case["early"]): return
+    if not audit("after a write at the new last index"): return
+    ctx.call("sparse:clear", sp.clear); ctx.call("dense:clear", de.clear); mdl.data = {}
+    audit("after clear")
+
+
+SUBCHECKS = [SubCheck("attribute_history", history(), fn, quick=2000, thorough=5000),
+             SubCheck("large_container", large_case(), fn_large, quick=3, thorough=2)]
 MATCHERS = {}
